@@ -423,9 +423,10 @@ PROPS = {
     "C15": dict(
         bins={"main": dict(tc="gcc", src="prop_C15.cpp", variants=["plain", "z"], shims=["z"])},
         parts=[
-            dict(name="bool_gp", workers={Q: 6, T: 6}, cases={Q: 20000, T: 600000}),
+            dict(name="bool_gp", workers={Q: 4, T: 4}, cases={Q: 20000, T: 600000}),
             dict(name="bool_deg", workers={Q: 3, T: 3}, cases={Q: 40000, T: 1200000}),
             dict(name="boolD_gp", workers={Q: 2, T: 2}, cases={Q: 20000, T: 600000}),
+            dict(name="bool_tight", workers={Q: 3, T: 3}, cases={Q: 60000, T: 1800000}),
             dict(name="offset", workers={Q: 3, T: 3}, cases={Q: 4000, T: 120000}),
             dict(name="rect", workers={Q: 2, T: 2}, cases={Q: 40000, T: 1200000}),
         ],
